@@ -533,6 +533,7 @@ type refResult struct {
 	reply  bool              // chain ended with a reply (status 200)
 	failed bool              // chain ended with a handler returning an error without calling Next (status not judged)
 	spec   bool              // end of chain: status/Allow are specified by the statement
+	no405  bool              // end of chain, !spec: an endpoint matching the FINAL (method, path) ran and called Next: "no endpoint matches" is false, so the reply must not be 405 (nothing else about it is fixed)
 	status int
 	allow  uint16 // bit per method stack index
 }
@@ -544,6 +545,8 @@ type refResult struct {
 // prefixes is two consecutive routes.)
 func refDispatch(ci int, tbl []entry, m, p int) (r refResult) {
 	ranEndpoint := false
+	var epM, epP [maxRef]uint8 // (method, path) under which the endpoints that ran were matched
+	nEP := 0
 	for i, e := range tbl {
 		for u := 0; u < kindUnits(e.kind); u++ {
 			if !unitHandles(ci, e, u, m, p) {
@@ -556,6 +559,8 @@ func refDispatch(ci int, tbl []entry, m, p int) (r refResult) {
 			r.trace[r.n] = uint8(i)
 			if !kindIsUse(e.kind) {
 				ranEndpoint = true
+				epM[nEP], epP[nEP] = uint8(m), uint8(p)
+				nEP++
 			}
 			switch e.beh {
 			case bReply:
@@ -593,7 +598,15 @@ func refDispatch(ci int, tbl []entry, m, p int) (r refResult) {
 	r.stM[r.n], r.stP[r.n] = uint8(m), uint8(p)
 	// End of chain. The statement fixes the reply only "when no endpoint matches".
 	if ranEndpoint {
-		return r // an endpoint ran and passed on: unspecified
+		// An endpoint ran and passed on: which reply follows is unspecified -- except that 405 + Allow is the reply
+		// "when no endpoint matches": if one of the endpoints that ran was matched under the very method and path the
+		// chain ends with, an endpoint of the request's method does match, whatever matched after it.
+		for k := 0; k < nEP; k++ {
+			if int(epM[k]) == m && int(epP[k]) == p {
+				r.no405 = true
+			}
+		}
+		return r
 	}
 	for _, e := range tbl {
 		if !kindIsUse(e.kind) && entryHandles(ci, e, m, p) {
